@@ -139,7 +139,8 @@ class ScaleLinearCompuMethod(CompuMethod):
         return seg.convert_internal_to_physical(internal_value)
 
     def is_valid_physical_value(self, physical_value: AtomicOdxType) -> bool:
-        return any(True for seg in self._segments if seg.physical_applies(physical_value))
+        return self._is_invertible and any(
+            True for seg in self._segments if seg.physical_applies(physical_value))
 
     def is_valid_internal_value(self, internal_value: AtomicOdxType) -> bool:
         return any(True for seg in self._segments if seg.internal_applies(internal_value))
